@@ -27,6 +27,8 @@ import (
 	"sort"
 	"strconv"
 	"strings"
+	"sync"
+	"sync/atomic"
 	"unicode/utf8"
 	"unsafe"
 
@@ -766,6 +768,37 @@ func idsAndStorage(rep *report, g *gen, perType int) {
 					rep.viol("roundtrip:blockchain.Event", fmt.Sprintf("event %d at height %d changes through save + load", i, h), replay)
 				}
 			}
+		}
+	}
+	// "encoding is deterministic" also when several goroutines encode at the same time (blocks and transactions are encoded
+	// concurrently by the gossip, RPC and storage paths): every goroutine re-encodes its own blocks and must get the bytes the
+	// sequential encoding gave
+	if len(all) >= 2 {
+		var cwg sync.WaitGroup
+		var bad int64
+		for gi := 0; gi < 8; gi++ {
+			cwg.Add(1)
+			go func(gi int) {
+				defer cwg.Done()
+				defer func() { recover() }() //nolint:errcheck // a panic here is counted as a difference below
+				for round := 0; round < 300 && atomic.LoadInt64(&bad) == 0; round++ {
+					sv := all[(gi+round)%len(all)]
+					if !bytes.Equal(sv.block.Encode(), sv.enc) {
+						atomic.AddInt64(&bad, 1)
+					}
+					for _, tx := range sv.block.Transactions {
+						enc := tx.Encode()
+						if !bytes.Equal(hashOf(enc), tx.ID) {
+							atomic.AddInt64(&bad, 1)
+						}
+					}
+				}
+			}(gi)
+		}
+		cwg.Wait()
+		rep.Counts["concurrent_encode_rounds"] += 8 * 300
+		if bad > 0 {
+			rep.viol("encode-nondeterministic:concurrent", fmt.Sprintf("8 goroutines re-encoding their own blocks and transactions: %d encodings differ from the bytes the sequential encoding gave", bad), nil)
 		}
 	}
 	// load with a fresh DataAccess (empty cache: everything comes from the database)
